@@ -266,6 +266,8 @@ def run(repo, rep):
     rule_zero_point_always(repo, rep)
     rep.clause("C06-t", "a scalar second operand fits the 16-bit field of NPU_SET_IFM2_SCALAR (checked before emission)")
     rule_scalar_field_width(repo, rep)
+    rep.clause("C06-u", "scalars and clamps are quantised with round-half-away-from-zero (quantise_float32, the function behind IFM2_SCALAR and ACTIVATION_MIN / MAX, interpreted on ties)")
+    rule_quantise_float32(repo, rep)
     rep.clause("C06-s", "register / operand agreement of the emitter helpers [rule shared with C02-q]")
     from .shared import register_operand_agreement as _roa
 
@@ -274,7 +276,7 @@ def run(repo, rep):
     from . import c10
 
     rep.run_borrowed(c10, {"C10-d": "C06-m"}, repo)
-    rep.run_borrowed(c15, {"C15-e": "C06-d"}, repo, only_sites=("register_command_stream_util", "register_command_stream_generator", "architecture_features"))
+    rep.run_borrowed(c15, {"C15-e": "C06-d"}, repo, only_sites=("register_command_stream_util", "register_command_stream_generator", "architecture_features", "architecture_allocator"))
     rep.run_borrowed(c04, {"C04-a": "C06-l"}, repo)
     # ACC_FORMAT / AB_START follow the accumulator type function [shared with C15-c]
     rep.run_borrowed(c15, {"C15-c": "C06-m"}, repo, only_sites=("_acc_type",))
@@ -1255,3 +1257,38 @@ def rule_scalar_field_width(repo, rep):
     wide = [t for t in checks if any(k in t for k in ("65535", "0xFFFF", "0xffff", "32767", "32768", "1 << 16", "1 << 15", "DataType.int16", "DataType.uint16", "fits_16"))]
     rep.check(bool(wide), "C06-t", site, f"`{val}` is checked against the 16-bit parameter field before NPU_SET_IFM2_SCALAR is emitted",
               f"checks before the emission: {checks or 'none'}: only the operand's data type bounds the value; an INT32 scalar of 100000 is emitted as 34464, -40000 as +25536 (cmd0_with_param masks to 16 bits)")
+
+
+def rule_quantise_float32(repo, rep):
+    """`numeric_util.quantise_float32(f, scale, zero_point)` = zero_point + round-half-away-from-zero(f / scale): interpreted (engine
+    interpreter over the repo's source, numeric primitives modelled) on exact ties with even and odd lower neighbours, both signs, and
+    ordinary values. Half-to-even (`np.rint`, `round`) and truncation differ on the ties."""
+    import math
+
+    from ..absint import Interp
+    from .shared import numeric_externs
+
+    nu = repo.mod("numeric_util")
+    if nu.func("quantise_float32") is None:
+        raise AnalysisError("numeric_util.quantise_float32 not found")
+    ext = numeric_externs()
+
+    def astype(i, a, k, n):
+        return int(a[0]) if a and isinstance(a[0], (int, float)) else None
+
+    it = Interp(repo, nu, externs=ext)
+    wrong = []
+    pts = 0
+    for f, scale, zp in ((2.5, 1.0, 0), (-4.5, 1.0, 0), (1.5, 1.0, 0), (-1.5, 1.0, 0), (0.5, 1.0, 3), (-0.5, 1.0, 3), (1.25, 0.5, 10), (1.625, 0.25, 0),
+                         (2.4, 1.0, 0), (2.6, 1.0, 0), (-2.4, 1.0, 0), (-2.6, 1.0, -7), (6.0, 0.5, 1), (0.0, 1.0, 5)):
+        ps = [p_ for p_ in it.run("quantise_float32", lambda f=f, scale=scale, zp=zp: ([f, scale, zp], {})) if p_.kind == "return"]
+        pts += 1
+        q = f / scale
+        want = zp + int(math.trunc(q + (-0.5 if q < 0 else 0.5)))
+        if len(ps) != 1 or not isinstance(ps[0].value, (int, float)):
+            raise AnalysisError(f"quantise_float32({f}, {scale}, {zp}) not evaluable: {[(p_.kind, p_.value) for p_ in ps][:2]}")
+        if int(ps[0].value) != want:
+            wrong.append((f, scale, zp, int(ps[0].value), want))
+    rep.check(not wrong, "C06-u", "ethosu/vela/numeric_util.py:quantise_float32", f"zero_point + round-half-away-from-zero(f / scale) on {pts} points (8 exact ties)",
+              (f"quantise_float32({wrong[0][0]}, {wrong[0][1]}, {wrong[0][2]}) = {wrong[0][3]}, half-away-from-zero gives {wrong[0][4]}: NPU_SET_IFM2_SCALAR / "
+               "NPU_SET_ACTIVATION_MIN / MAX encode a different scalar or clamp than the operation asked for") if wrong else "")
